@@ -1577,3 +1577,521 @@ pub open spec fn alloc_post<T>(o: Arena<T>, n: Arena<T>, r: NodeId, data: T) -> 
         })
 }
 
+// ---- sibling chains (C01: "the chain made of exactly the nodes that name it as parent") ------
+pub open spec fn chain_from<T>(s: Seq<Node<T>>, w: Ranks, i: int) -> Seq<int>
+    decreases (w.rem)(i),
+{
+    if 0 <= i < s.len() && s[i].next_sibling is Some && (w.rem)(s[i].next_sibling->0.idx()) < (w.rem)(i) {
+        seq![i] + chain_from(s, w, s[i].next_sibling->0.idx())
+    } else {
+        seq![i]
+    }
+}
+
+pub proof fn lemma_chain_from<T>(s: Seq<Node<T>>, w: Ranks, i: int)
+    requires
+        links_ok(s),
+        ranked(s, w),
+        0 <= i < s.len(),
+        !s[i].stamp.removed(),
+    ensures
+        is_chain(s, i, chain_from(s, w, i)),
+        forall|k: int|
+            0 <= k < chain_from(s, w, i).len() ==> {
+                let y = #[trigger] chain_from(s, w, i)[k];
+                &&& !s[y].stamp.removed()
+                &&& s[y].parent == s[i].parent
+                &&& (w.rem)(y) <= (w.rem)(i)
+                &&& (w.pos)(y) >= (w.pos)(i)
+                &&& (k > 0 ==> (w.pos)(y) > (w.pos)(i))
+            },
+    decreases (w.rem)(i),
+{
+    reveal(node_ok);
+    assert(node_ok(s, i));
+    assert(ranked_at(s, w, i));
+    let c = chain_from(s, w, i);
+    if s[i].next_sibling is Some {
+        let j = s[i].next_sibling->0.idx();
+        assert(node_ok(s, j));
+        lemma_chain_from(s, w, j);
+        let d = chain_from(s, w, j);
+        assert(c =~= seq![i] + d);
+        assert forall|k: int| 0 <= k < c.len() implies 0 <= #[trigger] c[k] < s.len() by {
+            if k > 0 {
+                assert(c[k] == d[k - 1]);
+            }
+        }
+        assert forall|k: int| 0 <= k < c.len() - 1 implies (#[trigger] s[c[k]]).next_sibling is Some && s[c[k]].next_sibling->0.idx()
+            == c[k + 1] by {
+            if k > 0 {
+                assert(c[k] == d[k - 1]);
+                assert(c[k + 1] == d[k]);
+            } else {
+                assert(c[1] == d[0]);
+            }
+        }
+        assert(c[c.len() - 1] == d[d.len() - 1]);
+        assert forall|k: int| 0 <= k < c.len() implies {
+            let y = #[trigger] c[k];
+            &&& !s[y].stamp.removed()
+            &&& s[y].parent == s[i].parent
+            &&& (w.rem)(y) <= (w.rem)(i)
+            &&& (w.pos)(y) >= (w.pos)(i)
+            &&& (k > 0 ==> (w.pos)(y) > (w.pos)(i))
+        } by {
+            if k > 0 {
+                assert(c[k] == d[k - 1]);
+            }
+        }
+    } else {
+        assert(c =~= seq![i]);
+    }
+}
+
+/// C01: the children of p are exactly the chain from p's first child, and it ends in p's last child
+pub proof fn lemma_children_chain<T>(s: Seq<Node<T>>, w: Ranks, p: int)
+    requires
+        links_ok(s),
+        ranked(s, w),
+        0 <= p < s.len(),
+        !s[p].stamp.removed(),
+        s[p].first_child is Some,
+    ensures
+        ({
+            let c = chain_from(s, w, s[p].first_child->0.idx());
+            &&& is_chain(s, s[p].first_child->0.idx(), c)
+            &&& s[p].last_child is Some && c[c.len() - 1] == s[p].last_child->0.idx()
+            &&& forall|k: int| 0 <= k < c.len() ==> !s[#[trigger] c[k]].stamp.removed() && is_me(s, p, s[c[k]].parent)
+            &&& forall|i: int|
+                0 <= i < s.len() && !(#[trigger] s[i]).stamp.removed() && s[i].parent is Some && s[i].parent->0.idx() == p
+                    ==> c.contains(i)
+        }),
+{
+    reveal(node_ok);
+    assert(node_ok(s, p));
+    let f = s[p].first_child->0.idx();
+    assert(node_ok(s, f));
+    lemma_chain_from(s, w, f);
+    let c = chain_from(s, w, f);
+    let e = c[c.len() - 1];
+    assert(node_ok(s, e));
+    assert(s[e].parent == s[f].parent);
+    assert forall|i: int|
+        0 <= i < s.len() && !(#[trigger] s[i]).stamp.removed() && s[i].parent is Some && s[i].parent->0.idx() == p implies c.contains(
+        i,
+    ) by {
+        lemma_child_on_chain(s, w, p, i);
+    }
+}
+
+pub proof fn lemma_child_on_chain<T>(s: Seq<Node<T>>, w: Ranks, p: int, i: int)
+    requires
+        links_ok(s),
+        ranked(s, w),
+        0 <= p < s.len(),
+        !s[p].stamp.removed(),
+        s[p].first_child is Some,
+        0 <= i < s.len(),
+        !s[i].stamp.removed(),
+        s[i].parent is Some,
+        s[i].parent->0.idx() == p,
+    ensures
+        chain_from(s, w, s[p].first_child->0.idx()).contains(i),
+    decreases (w.pos)(i),
+{
+    reveal(node_ok);
+    let f = s[p].first_child->0.idx();
+    let c = chain_from(s, w, f);
+    assert(node_ok(s, i));
+    assert(node_ok(s, p));
+    assert(node_ok(s, f));
+    lemma_chain_from(s, w, f);
+    if s[i].previous_sibling is None {
+        assert(is_me(s, i, s[p].first_child));
+        assert(c[0] == i);
+    } else {
+        let z = s[i].previous_sibling->0.idx();
+        assert(node_ok(s, z));
+        assert(ranked_at(s, w, z));
+        lemma_child_on_chain(s, w, p, z);
+        let k = choose|k: int| 0 <= k < c.len() && c[k] == z;
+        assert(s[c[k]].next_sibling is Some);
+        assert(k < c.len() - 1);
+        assert(c[k + 1] == i);
+    }
+}
+
+// ---- remove: the children of x take x's place (C04) ---------------------------------------------
+/// after `detach(x)` the place x occupied is a gap between its former neighbours
+pub proof fn lemma_gap_after_detach<T>(o: Seq<Node<T>>, n: Seq<Node<T>>, w: Ranks, x: int)
+    requires
+        links_ok(o),
+        ranked(o, w),
+        0 <= x < o.len(),
+        detach_post(o, n, x),
+    ensures
+        is_gap(n, o[x].parent, o[x].previous_sibling, o[x].next_sibling),
+        not_at(x, o[x].parent),
+        not_at(x, o[x].previous_sibling),
+        not_at(x, o[x].next_sibling),
+        o[x].parent is Some ==> (w.depth)(x) > (w.depth)(o[x].parent->0.idx()),
+{
+    reveal(node_ok);
+    assert(node_ok(o, x));
+    assert(ranked_at(o, w, x));
+    lemma_neighbors_distinct(o, w, x);
+    if o[x].previous_sibling is Some {
+        assert(node_ok(o, o[x].previous_sibling->0.idx()));
+    }
+    if o[x].next_sibling is Some {
+        assert(node_ok(o, o[x].next_sibling->0.idx()));
+    }
+    if o[x].parent is Some {
+        assert(node_ok(o, o[x].parent->0.idx()));
+    }
+}
+
+/// effect of moving the children chain c (fc..lc) of the detached root x into the gap (P, a, b)
+pub open spec fn splice_post<T>(o: Seq<Node<T>>, n: Seq<Node<T>>, x: int, c: Seq<int>, fc: NodeId, lc: NodeId, p: Option<NodeId>, a: Option<NodeId>, b: Option<NodeId>) -> bool {
+    &&& n.len() == o.len()
+    &&& forall|i: int|
+        0 <= i < o.len() ==> {
+            &&& (#[trigger] n[i]).stamp == o[i].stamp && n[i].data == o[i].data
+            &&& n[i].parent == (if c.contains(i) {
+                p
+            } else {
+                o[i].parent
+            })
+            &&& n[i].previous_sibling == (if i == fc.idx() {
+                a
+            } else if b is Some && i == b->0.idx() {
+                Some(lc)
+            } else {
+                o[i].previous_sibling
+            })
+            &&& n[i].next_sibling == (if i == lc.idx() {
+                b
+            } else if a is Some && i == a->0.idx() {
+                Some(fc)
+            } else {
+                o[i].next_sibling
+            })
+            &&& n[i].first_child == (if i == x {
+                None
+            } else if p is Some && i == p->0.idx() && a is None {
+                Some(fc)
+            } else {
+                o[i].first_child
+            })
+            &&& n[i].last_child == (if i == x {
+                None
+            } else if p is Some && i == p->0.idx() && b is None {
+                Some(lc)
+            } else {
+                o[i].last_child
+            })
+        }
+}
+
+/// the facts about the children range of the detached root x that `remove` needs
+pub open spec fn splice_ctx<T>(s: Seq<Node<T>>, w: Ranks, x: int, fc: NodeId, lc: NodeId, p: Option<NodeId>, a: Option<NodeId>, b: Option<NodeId>) -> bool {
+    &&& links_ok(s) && ranked(s, w)
+    &&& 0 <= x < s.len() && !s[x].stamp.removed() && is_root(s, x)
+    &&& s[x].first_child == Some(fc) && s[x].last_child == Some(lc)
+    &&& is_gap(s, p, a, b) && not_at(x, p) && not_at(x, a) && not_at(x, b)
+    &&& p is Some ==> (w.depth)(x) > (w.depth)(p->0.idx())
+}
+
+#[verifier::rlimit(100)]
+pub proof fn lemma_splice_pre_s<T>(s: Seq<Node<T>>, w: Ranks, x: int, fc: NodeId, lc: NodeId, p: Option<NodeId>, a: Option<NodeId>, b: Option<NodeId>)
+    requires
+        splice_ctx(s, w, x, fc, lc, p, a, b),
+    ensures
+        transplant_pre(s, chain_from(s, w, fc.idx()), fc, lc, p, a, b),
+        s[fc.idx()].previous_sibling is None && s[lc.idx()].next_sibling is None,
+        s[fc.idx()].parent == s[lc.idx()].parent,
+        s[fc.idx()].parent is Some && s[fc.idx()].parent->0.idx() == x,
+        forall|i: int| chain_from(s, w, fc.idx()).contains(i) ==> i != x,
+{
+    reveal(node_ok);
+    let c = chain_from(s, w, fc.idx());
+    lemma_children_chain(s, w, x);
+    assert(node_ok(s, x));
+    assert(node_ok(s, fc.idx()));
+    assert(node_ok(s, lc.idx()));
+    lemma_id_eq(s[fc.idx()].parent->0, s[lc.idx()].parent->0);
+    assert(c.contains(fc.idx())) by {
+        assert(c[0] == fc.idx());
+    }
+    assert(c.contains(lc.idx())) by {
+        assert(c[c.len() - 1] == lc.idx());
+    }
+    // chain nodes have parent x; P, a, b, P's ends do not
+    assert forall|i: int| c.contains(i) implies 0 <= i < s.len() && s[i].parent is Some && s[i].parent->0.idx() == x by {
+        let k = choose|k: int| 0 <= k < c.len() && c[k] == i;
+        assert(is_me(s, x, s[c[k]].parent));
+    }
+    if a is Some {
+        assert(node_ok(s, a->0.idx()));
+        assert(ranked_at(s, w, a->0.idx()));
+    }
+    if b is Some {
+        assert(node_ok(s, b->0.idx()));
+    }
+    if p is Some {
+        let pi = p->0.idx();
+        assert(node_ok(s, pi));
+        assert(ranked_at(s, w, pi));
+        if a is Some {
+            lemma_parent_has_first(s, w, a->0.idx());
+        }
+        if b is Some {
+            lemma_parent_has_last(s, w, b->0.idx());
+        }
+        if s[pi].first_child is Some {
+            let z = s[pi].first_child->0.idx();
+            assert(node_ok(s, z));
+            lemma_id_eq(s[z].parent->0, p->0);
+        }
+        if s[pi].last_child is Some {
+            let y = s[pi].last_child->0.idx();
+            assert(node_ok(s, y));
+            lemma_id_eq(s[y].parent->0, p->0);
+        }
+    }
+}
+
+pub proof fn lemma_splice_pre<T>(s: Seq<Node<T>>, m: Seq<Node<T>>, w: Ranks, x: int, fc: NodeId, lc: NodeId, p: Option<NodeId>, a: Option<NodeId>, b: Option<NodeId>)
+    requires
+        splice_ctx(s, w, x, fc, lc, p, a, b),
+        detach_range_post(s, m, fc.idx(), lc.idx()),
+    ensures
+        transplant_pre(m, chain_from(s, w, fc.idx()), fc, lc, p, a, b),
+{
+    let c = chain_from(s, w, fc.idx());
+    lemma_splice_pre_s(s, w, x, fc, lc, p, a, b);
+    assert(c[0] == fc.idx());
+    // m differs from s only in x's first/last child
+    assert forall|i: int| 0 <= i < s.len() && i != x implies #[trigger] m[i] == s[i] by {}
+    assert forall|i: int| 0 <= i < s.len() implies (#[trigger] m[i]).stamp == s[i].stamp && m[i].parent == s[i].parent && m[i].previous_sibling
+        == s[i].previous_sibling && m[i].next_sibling == s[i].next_sibling by {}
+    assert(is_chain(m, fc.idx(), c)) by {
+        assert forall|k: int| 0 <= k < c.len() - 1 implies (#[trigger] m[c[k]]).next_sibling is Some && m[c[k]].next_sibling->0.idx()
+            == c[k + 1] by {
+            assert(s[c[k]].next_sibling is Some);
+        }
+    }
+    if p is Some {
+        let pi = p->0.idx();
+        assert(m[pi] == s[pi]);
+        if s[pi].first_child is Some {
+            let z = s[pi].first_child->0.idx();
+            assert(s[z].parent == p);
+            assert(z != x);
+            assert(m[z] == s[z]);
+        }
+        if s[pi].last_child is Some {
+            let y = s[pi].last_child->0.idx();
+            assert(s[y].parent == p);
+            assert(y != x);
+            assert(m[y] == s[y]);
+        }
+    }
+}
+
+#[verifier::rlimit(300)]
+pub proof fn lemma_splice_links<T>(s: Seq<Node<T>>, n: Seq<Node<T>>, w: Ranks, x: int, fc: NodeId, lc: NodeId, p: Option<NodeId>, a: Option<NodeId>, b: Option<NodeId>)
+    requires
+        splice_ctx(s, w, x, fc, lc, p, a, b),
+        splice_post(s, n, x, chain_from(s, w, fc.idx()), fc, lc, p, a, b),
+    ensures
+        links_ok(n),
+{
+    reveal(node_ok);
+    let c = chain_from(s, w, fc.idx());
+    lemma_children_chain(s, w, x);
+    assert(node_ok(s, x));
+    assert(node_ok(s, fc.idx()));
+    assert(node_ok(s, lc.idx()));
+    lemma_id_eq(s[x].first_child->0, fc);
+    lemma_id_eq(s[x].last_child->0, lc);
+    assert(c.contains(fc.idx())) by {
+        assert(c[0] == fc.idx());
+    }
+    assert(c.contains(lc.idx())) by {
+        assert(c[c.len() - 1] == lc.idx());
+    }
+    assert forall|i: int| c.contains(i) implies 0 <= i < s.len() && !s[i].stamp.removed() && s[i].parent is Some && s[i].parent->0.idx()
+        == x by {
+        let k = choose|k: int| 0 <= k < c.len() && c[k] == i;
+        assert(is_me(s, x, s[c[k]].parent));
+    }
+    if a is Some {
+        assert(node_ok(s, a->0.idx()));
+        assert(ranked_at(s, w, a->0.idx()));
+    }
+    if b is Some {
+        assert(node_ok(s, b->0.idx()));
+    }
+    if p is Some {
+        let pi = p->0.idx();
+        assert(node_ok(s, pi));
+        assert(ranked_at(s, w, pi));
+        if a is Some {
+            lemma_parent_has_first(s, w, a->0.idx());
+        }
+        if b is Some {
+            lemma_parent_has_last(s, w, b->0.idx());
+        }
+    }
+    assert forall|i: int| 0 <= i < n.len() implies #[trigger] node_ok(n, i) by {
+        assert(node_ok(s, i));
+        if s[i].parent is Some {
+            assert(node_ok(s, s[i].parent->0.idx()));
+        }
+        if s[i].previous_sibling is Some {
+            assert(node_ok(s, s[i].previous_sibling->0.idx()));
+        }
+        if s[i].next_sibling is Some {
+            assert(node_ok(s, s[i].next_sibling->0.idx()));
+        }
+        if s[i].first_child is Some {
+            assert(node_ok(s, s[i].first_child->0.idx()));
+        }
+        if s[i].last_child is Some {
+            assert(node_ok(s, s[i].last_child->0.idx()));
+        }
+    }
+}
+
+pub proof fn lemma_splice_ranks<T>(s: Seq<Node<T>>, n: Seq<Node<T>>, w: Ranks, x: int, fc: NodeId, lc: NodeId, p: Option<NodeId>, a: Option<NodeId>, b: Option<NodeId>)
+    requires
+        splice_ctx(s, w, x, fc, lc, p, a, b),
+        splice_post(s, n, x, chain_from(s, w, fc.idx()), fc, lc, p, a, b),
+    ensures
+        exists|w2: Ranks| ranked(n, w2),
+{
+    reveal(node_ok);
+    let c = chain_from(s, w, fc.idx());
+    lemma_children_chain(s, w, x);
+    assert(node_ok(s, x));
+    assert(node_ok(s, fc.idx()));
+    assert(node_ok(s, lc.idx()));
+    assert(c.contains(fc.idx())) by {
+        assert(c[0] == fc.idx());
+    }
+    assert(c.contains(lc.idx())) by {
+        assert(c[c.len() - 1] == lc.idx());
+    }
+    assert forall|i: int| c.contains(i) implies 0 <= i < s.len() && !s[i].stamp.removed() && s[i].parent is Some && s[i].parent->0.idx()
+        == x by {
+        let k = choose|k: int| 0 <= k < c.len() && c[k] == i;
+        assert(is_me(s, x, s[c[k]].parent));
+    }
+    let t: int = if b is Some { (w.rem)(b->0.idx()) as int } else { -1 };
+    let r: int = (w.rem)(fc.idx()) as int + 1;
+    let tp: int = if a is Some { (w.pos)(a->0.idx()) as int } else { -1 };
+    let rp: int = (w.pos)(lc.idx()) as int + 1;
+    let rem2 = |i: int| -> nat {
+        if c.contains(i) {
+            (t + 1 + (w.rem)(i)) as nat
+        } else if (w.rem)(i) > t {
+            ((w.rem)(i) + r + 1) as nat
+        } else {
+            (w.rem)(i)
+        }
+    };
+    let pos2 = |i: int| -> nat {
+        if c.contains(i) {
+            (tp + 1 + (w.pos)(i)) as nat
+        } else if (w.pos)(i) > tp {
+            ((w.pos)(i) + rp + 1) as nat
+        } else {
+            (w.pos)(i)
+        }
+    };
+    let w2 = Ranks { depth: w.depth, rem: rem2, pos: pos2, bound: w.bound };
+    if a is Some {
+        assert(node_ok(s, a->0.idx()));
+        assert(ranked_at(s, w, a->0.idx()));
+    }
+    if b is Some {
+        assert(node_ok(s, b->0.idx()));
+    }
+    assert(ranked_at(s, w, x));
+    assert forall|i: int| 0 <= i < n.len() implies #[trigger] ranked_at(n, w2, i) by {
+        assert(ranked_at(s, w, i));
+        assert(node_ok(s, i));
+        if s[i].next_sibling is Some {
+            let j = s[i].next_sibling->0.idx();
+            assert(node_ok(s, j));
+            if c.contains(j) {
+                // only a chain node can have a chain node as its next sibling
+                assert(s[j].parent == s[i].parent);
+            }
+            if c.contains(i) {
+                assert(s[j].parent == s[i].parent);
+                lemma_child_on_chain(s, w, x, j);
+            }
+        }
+        if s[i].parent is Some && c.contains(i) {
+            assert(ranked_at(s, w, x));
+        }
+    }
+    assert(ranked(n, w2));
+}
+
+// ---- freeing an unlinked node (C04, C12) ------------------------------------------------------
+/// nobody names a node that has no links (needs the ranks for the parent links of would-be children)
+pub proof fn lemma_unreferenced<T>(s: Seq<Node<T>>, w: Ranks, x: int)
+    requires
+        links_ok(s),
+        ranked(s, w),
+        0 <= x < s.len(),
+        no_links(s[x]),
+    ensures
+        forall|j: int|
+            0 <= j < s.len() ==> not_at(x, (#[trigger] s[j]).parent) && not_at(x, s[j].previous_sibling) && not_at(x, s[j].next_sibling)
+                && not_at(x, s[j].first_child) && not_at(x, s[j].last_child),
+{
+    reveal(node_ok);
+    assert forall|j: int| 0 <= j < s.len() implies not_at(x, (#[trigger] s[j]).parent) && not_at(x, s[j].previous_sibling) && not_at(
+        x,
+        s[j].next_sibling,
+    ) && not_at(x, s[j].first_child) && not_at(x, s[j].last_child) by {
+        assert(node_ok(s, j));
+        if !s[j].stamp.removed() && s[j].parent is Some && s[j].parent->0.idx() == x {
+            lemma_parent_has_first(s, w, j);
+        }
+    }
+}
+
+pub proof fn lemma_free_links<T>(o: Seq<Node<T>>, n: Seq<Node<T>>, w: Ranks, x: int)
+    requires
+        links_ok(o),
+        ranked(o, w),
+        0 <= x < o.len(),
+        no_links(o[x]),
+        n.len() == o.len(),
+        n[x].stamp.removed(),
+        forall|i: int|
+            0 <= i < o.len() ==> {
+                &&& (#[trigger] n[i]).parent == o[i].parent && n[i].previous_sibling == o[i].previous_sibling && n[i].next_sibling
+                    == o[i].next_sibling && n[i].first_child == o[i].first_child && n[i].last_child == o[i].last_child
+                &&& i != x ==> n[i].stamp == o[i].stamp
+            },
+    ensures
+        links_ok(n),
+        ranked(n, w),
+{
+    reveal(node_ok);
+    lemma_unreferenced(o, w, x);
+    assert forall|i: int| 0 <= i < n.len() implies #[trigger] node_ok(n, i) by {
+        assert(node_ok(o, i));
+    }
+    assert forall|i: int| 0 <= i < n.len() implies #[trigger] ranked_at(n, w, i) by {
+        assert(ranked_at(o, w, i));
+    }
+}
+
